@@ -334,7 +334,7 @@ PROPS["C08"] = dict(
                 "window (nq_handleDelayed); every PDU the receiver transmits over any history is addressed towards the sender and carries the transaction's ids, sequence number and mode (C08_headers, Props/C08h.lean). Tie to the code: recv engine (NAK queue, delayed timers, segment list and every emitted NAK compared) and seg engine (gaps)."),
     level_note=RECV_SEND_NOTE,
     rule=("recv engine as in C04 (loss of any subset of data segments and metadata, EOF first, data after EOF, duplicated EOF, prompts; deferred/immediate x delay 0/300 ms; "
-          "segment sizes 16..64 so that NAK lists split over several PDUs; re-segmented overlapping data) + seg engine as in C09. Oracles wf_scope, wf_empty_range, "
+          "segment sizes 16..64 so that NAK lists split over several PDUs; re-segmented overlapping data; the scripted family unsorted_queues, 20 quick / 200 thorough: immediate procedure with a delay, an early gap already NAKed and still open, a later gap followed at once by the EOF, so that the queue is unsorted when the NAK goes out) + seg engine as in C09. Oracles wf_scope, wf_empty_range, "
           "wf_beyond_file, wf_size, wf_meta_marker, deferred_quiet, exact_after_eof. Non-trivial = a PDU was emitted or an indication raised."),
     assumptions=["C08_wellformed 'inside the file': the sender's data PDUs lie inside the file and its EOF announces the file's size (hypothesis EvOk)",
                  "a NAK PDU always carries at least one request, so with a segment size below 1 + 4 x file-size width a single-request NAK exceeds it (finding F34)"],
